@@ -91,6 +91,7 @@ def solved_model(draw):
     determined = list(known)  # expression nodes whose value is known at this point
     alias_targets = [["var", s] for s in states] + [["var", "u0"]]  # things an alias may point at
     eqs, kinds = [], []
+    overflow = []
 
     def ev(e):
         return D.E(vals, "casadi", der=ders).ev(e)
@@ -133,6 +134,8 @@ def solved_model(draw):
             choices += ["alias", "alias", "alias", "constant"]
             if len(alias_targets) > 0:
                 choices += ["alias"]
+        if u[0] == "elem":
+            choices += ["alias"]  # one element of the vector is an alias of something
         if u[0] == "der":
             choices += ["alias_der"]
         if family == "nonlinear":
@@ -197,7 +200,9 @@ def solved_model(draw):
             eqs.append(["eq", w, rhs]); v = ev(rhs)
             kinds.append("nonlinear")
         if not math.isfinite(v) or abs(v) > 1e6:
-            v = float(max(min(v, 1e6), -1e6)) if math.isfinite(v) else 1.0
+            # out of numeric range (exp of a large value): no usable reference solution; the case is discarded
+            overflow.append(str(u))
+            v = 1.0
         set_value(u, v)
         determined.append(w)
         if u[0] == "alg":
@@ -317,7 +322,7 @@ def solved_model(draw):
         if draw(st.integers(0, 3)) == 0:
             ieqs.append(["eq", ["var", a], lit(vals[a]) if vals[a] >= 0 else ["neg", lit(-vals[a])]])
     model = {"name": "M", "n": 2, "m": 2, "vars": vars_, "funcs": [], "eqs": [eqs[i] for i in shuffled], "ieqs": ieqs}
-    return {"model": model, "family": family, "time": use_time, "kinds": sorted(set(kinds)), "cluster": cluster,
+    return {"model": model, "family": family, "time": use_time, "kinds": sorted(set(kinds)), "cluster": cluster, "overflow": bool(overflow),
             "sol": {k: (list(v) if isinstance(v, list) else v) for k, v in vals.items()}, "der": dict(ders)}
 
 
@@ -425,6 +430,8 @@ def run_case(ctx, case, which):
     from pymoca import parser
     from pymoca.backends.casadi import generator
 
+    if case.get("overflow"):
+        raise Discard("reference solution out of numeric range")
     m = case["model"]
     text = D.print_model(m)
     opts = dict(case["options"])
@@ -441,12 +448,23 @@ def run_case(ctx, case, which):
     get = sol_lookup(case)
     names0 = {c: [v.symbol.name() for v in getattr(model, c)] for c in ("states", "alg_states", "constants", "parameters", "inputs")}
     bal0 = balance(model)
+    # harness self-check: s* must satisfy the model as generated, otherwise there is nothing to compare with
+    try:
+        f0 = model.dae_residual_function
+        args0 = build_args(model, get, {"c0": case["sol"]["c0"], "c1": case["sol"]["c1"], "k0": case["sol"].get("k0", 0.0)})
+        r0 = np.array(f0.call(args0)[0], dtype=float).reshape(-1) if f0.n_out() else np.zeros(0)
+    except Exception as e:  # noqa: BLE001
+        if pymoca_frame(e) == "?":
+            raise
+        r0 = None
+    if r0 is not None and r0.size and (not np.all(np.isfinite(r0)) or np.max(np.abs(r0)) > 1e-7 * max(1.0, max_abs(case))):
+        raise Discard("reference solution does not satisfy the model as generated")
     # is the model as generated regular at s* (its residual determines the derivative/algebraic unknowns)?
     regular0 = True
     if "eliminable_two_states" in case.get("kinds", ()):
         try:
             f0 = model.dae_residual_function
-            args0 = build_args(model, get, {"c0": case["sol"]["c0"], "c1": case["sol"]["c1"]})
+            args0 = build_args(model, get, {"c0": case["sol"]["c0"], "c1": case["sol"]["c1"], "k0": case["sol"].get("k0", 0.0)})
             ins0 = [ca.MX.sym("j%d" % i, *f0.size_in(i)) for i in range(f0.n_in())]
             J0 = ca.Function("J0", ins0, [ca.jacobian(f0.call(ins0)[0], ca.vertcat(ins0[2], ins0[3]))])
             Jv0 = np.array(J0.call(args0)[0], dtype=float)
